@@ -229,6 +229,9 @@ impl<F: Future> Stream for FuturesUnordered<F> {
             match poll {
                 Poll::Ready(Some(x)) => {
                     *rem -= 1;
+                    // take turns: the next call starts with the following group, so that a
+                    // group with a long run of ready futures cannot starve the other groups
+                    *poll_next += 1;
                     return Poll::Ready(Some(x));
                 }
                 Poll::Ready(None) => {
@@ -253,6 +256,11 @@ impl<F: Future> Stream for FuturesUnordered<F> {
                     *poll_next += 1;
                 }
             }
+        }
+        // a group that gave away its last future may have been retired only now, after
+        // the retained last group: with nothing left to wait for the stream has ended
+        if *rem == 0 {
+            return Poll::Ready(None);
         }
         Poll::Pending
     }
